@@ -475,6 +475,8 @@ def run_parallel(ctx: Ctx):
                 ctx.res.faults["sched.finish_out_of_submission_order"] += 1
             if any(nm in fail for nm in names):
                 ctx.res.faults["branch.raise"] += 1
+            if sim.timeouts_fired:
+                ctx.res.faults["sched.timeout_fired"] += sim.timeouts_fired
             sched_canon = [e[1:] for e in ctx.log.events if e[1].startswith("sched.")]
             ctx.res.extra_sets.setdefault("schedules", []).append(core.short_hash([n, case["max_workers"], sched_canon]))
             if n >= 2 and yo:
